@@ -868,14 +868,28 @@ func HeldAt(fn *ssa.Function, at ssa.Instruction, mu string) (bool, string) {
 // ---------------------------------------------------------------------------
 // misc
 
-// Returns lists the return instructions of fn.
+// Returns lists the return instructions of fn. The synthetic return of the
+// recover block (functions with a defer: "run defers, return the result
+// cells") is not a return statement of the source and is left out unless the
+// function has named results, which a recovering deferred call can set.
 func Returns(fn *ssa.Function) []*ssa.Return {
 	var out []*ssa.Return
+	named := false
+	if fn.Signature != nil {
+		for v := range fn.Signature.Results().Variables() {
+			if v.Name() != "" && v.Name() != "_" {
+				named = true
+			}
+		}
+	}
 	for _, b := range fn.Blocks {
 		if len(b.Instrs) == 0 {
 			continue
 		}
 		if r, ok := b.Instrs[len(b.Instrs)-1].(*ssa.Return); ok {
+			if b == fn.Recover && !named {
+				continue
+			}
 			out = append(out, r)
 		}
 	}
